@@ -19,7 +19,7 @@ func (c06) Size(tier string) Size {
 	if tier == "thorough" {
 		return Size{Batches: 32, Cases: 8000}
 	}
-	return Size{Batches: 8, Cases: 1200}
+	return Size{Batches: 16, Cases: 1000}
 }
 func (c06) Rule() string {
 	return "case = (attribute kind, nullable) x a valid JSON value text, decoded (1) by Attr.UnmarshalToType directly and (2) inside a resource payload by UnmarshalResource; integer literals: EVERY literal in -70000..70000 for the 8- and 16-bit kinds (direct path on every run; payload path exhaustive in thorough, +-1000 around each boundary in quick), every boundary +-k (k <= 64), 2^k+-1, random magnitudes up to 2^70, -0, fractions, exponents; null/true/false; strings with every escape form; RFC 3339 times with any offset and 0-9 fractional digits plus near misses; canonical / unpadded / non-zero-trailing-bit / whitespace base64; relationship data null, one identifier, lists with repeats, right and wrong type. Oracle: my own readers (number -> big.Rat, RFC 3339 -> instant, base64 -> bytes); acceptance obliges the exact value and Go type, null only for nullable kinds, absent fields read zero, and re-marshaling reproduces id, type, attributes (numbers by value) and linkage. Rejecting is never a violation. Non-trivial = accepted decode or payload with >= 1 field; distinct = (kind, text) / payload hash."
